@@ -9,9 +9,21 @@ from vlib import common
 
 
 def main(argv):
-    if len(argv) >= 3 and argv[1] == "--replay":
-        ok, log = common.run_replay(argv[2])
+    if "--replay" in argv:
+        # ./check C13 --replay <file>   (also accepted: ./check --replay <file>)
+        i = argv.index("--replay")
+        if i + 1 >= len(argv):
+            print("usage: check <PROP> --replay <file>")
+            return 3
+        path = argv[i + 1]
+        ok, log = common.run_replay(path)
         print(log)
+        if ok:
+            try:
+                prop = json.load(open(path)).get("property", argv[1].upper())
+            except Exception:
+                prop = argv[1].upper()
+            print("VIOLATION property=%s replay=%s" % (prop, path))
         return 1 if ok else (0 if ok is False else 3)
     prop = argv[1].upper()
     for a in argv[2:]:
